@@ -158,8 +158,11 @@ def run_case(gen, idx, rng, tier):
                             'detail': {'endpoint': side, 'left': left, 'endings': endings,
                                        'trace': trace_excerpt(world, 80, left[0]['iid'])}})
             if partial:
+                left = [{'stream': sid, 'iid': sid_to_iid.get(sid), 'model': _model(specs, sid_to_iid.get(sid)),
+                         'ended_by': endings.get(sid_to_iid.get(sid)), 'stream_still_open': sid in streams}
+                        for sid in partial]
                 wit.append({'clause': 'partial-frames-at-quiescence',
-                            'detail': {'endpoint': side, 'streams': partial, 'endings': endings,
+                            'detail': {'endpoint': side, 'streams': partial, 'left': left, 'endings': endings,
                                        'trace': trace_excerpt(world, 80)}})
     ws = []
     seen = set()
@@ -280,9 +283,14 @@ def run_script(idx, rng, tier):
             wits.append({'clause': 'open-streams-at-quiescence',
                          'detail': dict(ctx, left=[{'stream': s, 'model': m, 'ended_by': how} for s in res.open_streams],
                                         trace=trace_excerpt(res.world, 70))})
-        if res.partial_frames:
+        if res.partial_frames and how != 'connection-ended':
+            # once the connection itself has ended its reassembly cache is discarded with it (a reconnect starts
+            # from fresh internals), so only live connections are judged for partial frames
             wits.append({'clause': 'partial-frames-at-quiescence',
-                         'detail': dict(ctx, streams=res.partial_frames, trace=trace_excerpt(res.world, 70))})
+                         'detail': dict(ctx, streams=res.partial_frames,
+                                        left=[{'stream': x, 'model': m, 'ended_by': how,
+                                               'stream_still_open': x in res.open_streams} for x in res.partial_frames],
+                                        trace=trace_excerpt(res.world, 70))})
         pr = getattr(res, 'probe', None)
         if pr is not None:
             st['id_reuse_probes'] += 1
@@ -304,6 +312,13 @@ def run_script(idx, rng, tier):
 
 def classify(w):
     d = w.get('detail', {})
+    if w.get('clause') == 'partial-frames-at-quiescence':
+        left = d.get('left') or []
+        # a fragment kept for a channel whose table entry itself survived ERROR / requester CANCEL: same mechanism
+        if left and all(x.get('model') == 'channel' and x.get('ended_by') in ('error', 'requester-cancel')
+                        and x.get('stream_still_open') for x in left):
+            return 'channel-direction-survives-termination'
+        return None
     if w.get('clause') in ('open-streams-at-quiescence', 'stream-id-not-reusable'):
         left = d.get('left') or []
         if left and all(x.get('model') == 'channel' and x.get('ended_by') in ('error', 'requester-cancel')
